@@ -49,8 +49,9 @@ func c13Driver(w *W, tg target, pairs bool) {
 		nTasks, maxCalls = 2, 1
 	}
 	type script struct {
-		ops  []int
-		args []int
+		ops    []int
+		args   []int
+		cancel []int // >= 0: the call gets a context of its own, ended that many scheduling points into it
 	}
 	scripts := make([]script, nTasks)
 	var desc []string
@@ -63,7 +64,15 @@ func c13Driver(w *W, tg target, pairs bool) {
 			op := simrt.Choose(len(probe))
 			scripts[t].ops = append(scripts[t].ops, op)
 			scripts[t].args = append(scripts[t].args, 1+simrt.Choose(4))
+			c := -1
+			if simrt.Choose(4) == 0 {
+				c = simrt.Choose(12)
+			}
+			scripts[t].cancel = append(scripts[t].cancel, c)
 			desc = append(desc, fmt.Sprintf("t%d:%s", t, probe[op].name))
+			if c >= 0 {
+				desc[len(desc)-1] += fmt.Sprintf("[ctx ends +%d]", c)
+			}
 		}
 	}
 	if pairs {
@@ -83,7 +92,21 @@ func c13Driver(w *W, tg target, pairs bool) {
 		}
 		simrt.Spawn(fmt.Sprintf("%s-client%d", tg.name, t), func() {
 			for i, op := range sc.ops {
-				ms[op].fn(ctx, sc.args[i]+10*t)
+				cctx := ctx
+				if k := sc.cancel[i]; k >= 0 {
+					// the call's own context ends while the call is under way
+					// (accepted by an event loop but not yet answered, parked,
+					// about to park ...)
+					c, cancel := context.WithCancel(ctx)
+					cctx = c
+					simrt.Spawn("call-context-ends", func() {
+						for j := 0; j < k; j++ {
+							simrt.Yield()
+						}
+						cancel()
+					})
+				}
+				ms[op].fn(cctx, sc.args[i]+10*t)
 			}
 		})
 	}
